@@ -12,7 +12,7 @@ RULE = ("cdist(U,U) of a whole universe in one call for every weight triple of t
 ASSUMPTIONS = ["long strings are covered as a boundary family (lengths 254..400 x 3 shapes), not all strings of that length",
                "weights*length kept below 2^24 (float32 exactness of the generic scorer path is not relied on above that)",
                "rapidfuzz cdist workers=-1 answered with one thread in the bulk spaces; free-running-threads space uses the untouched function"]
-REQUIRED_CLASSES = {"all": ["asymmetric-ins-del", "long-string>255", "condensed-layout", "kwargs-forwarded", "free-running-threads", "several-metric-objects-alive"]}
+REQUIRED_CLASSES = {"all": ["asymmetric-ins-del", "long-string>255", "condensed-layout", "kwargs-forwarded", "free-running-threads", "several-metric-objects-alive", "falsy-metric-object", "extreme-aspect-ratio"]}
 MIN_OUTCOMES = 10
 SINGLE_THREAD_RAPIDFUZZ = True
 
@@ -55,6 +55,11 @@ def spaces(tier):
         for X in E.lists(U, 4 if q else 5):
             yield ("func", X)
 
+    def gen_aspect():
+        for na, nb in ((1, 70), (2, 130), (1, 300), (70, 1), (130, 2), (3, 200)):
+            for w in ((1, 3, 2), (1, 1, 1), (2, 1, 3)):
+                yield ("aspect", na, nb, w)
+
     def gen_free():
         for w in ((1, 1, 1), (1, 2, 3), (2, 1, 3)):
             yield ("free", w)
@@ -64,6 +69,7 @@ def spaces(tier):
         Space("condensed-layout-all-lists", gen_layout, "Lists(U(AB,2),4|5) x weights {(1,1,1),(1,2,3),(3,1,2)}: every condensed index, squareform round trip, pdist == upper triangle of cdist", shards=64),
         Space("long-string-boundary-family", gen_long, "lengths %s x shapes {x^n vs y^n, x^n vs '', x^n vs x^(n-1)y, x^n vs x^n} x 3 weight triples" % (LONG,)),
         Space("functional-pdist-cdist", gen_func, "Lists(U(AB,2),4|5) with a metric encoding (a,b) and a forwarded keyword; default metric"),
+        Space("extreme-aspect-ratios", gen_aspect, "cdist of 1-3 anchors against 70-300 comparisons (and the transposed shapes) of mixed-length strings x 3 weight triples", per_case=True),
         Space("free-running-rapidfuzz-threads", gen_free, "cdist(U(AB,4),U(AB,4)) x 3 weight triples with rapidfuzz's own thread pool untouched", per_case=True),
     ]
 
@@ -122,6 +128,18 @@ def check_case(case, acc):
                     return
                 k += 1
         acc.ok((kind, case[1:], int(r.sum())), nontrivial=True)
+    elif kind == "aspect":
+        _, na, nb, w = case
+        acc.cls("extreme-aspect-ratio")
+        pool = E.universe("AB", 8)
+        A = [pool[(i * 37 + 11) % len(pool)] for i in range(na)]
+        B = [pool[(i * 53 + 5) % len(pool)] for i in range(nb)]
+        r = acc.call(mk(w).calc_cdist_matrix, A, B)
+        exp = [[ref_wlev(a, b, *w) for b in B] for a in A]
+        if raised(r) or r.tolist() != exp:
+            acc.fail("WeightedLevenshtein/cdist/aspect-ratio", case, "directional distances anchors -> comparisons", r if raised(r) else "differs", note="shape %dx%d" % (na, nb))
+            return
+        acc.ok((na, nb, w), nontrivial=True)
     elif kind == "pair":
         _, a, b, w = case
         r = acc.call(mk(w).calc_cdist_matrix, [a], [b])
@@ -214,6 +232,24 @@ def check_case(case, acc):
                 acc.fail("functional-cdist/%s" % ("kwargs" if kw else "layout"), case, expc, c)
                 return
             acc.ok((scale, tuple(exp)), nontrivial=any(exp))
+        # a metric given as a callable *object* whose truth value is False (e.g. a memoising metric with an empty cache and __len__)
+        class CachingMetric:
+            def __init__(self):
+                self.cache = {}
+
+            def __len__(self):
+                return 0            # reports an empty cache: bool(metric) is False
+
+            def __call__(self, a, b):
+                return code[a] * 64 + code[b]
+        acc.cls("falsy-metric-object")
+        v = acc.call(pyrepseq.pdist, X, metric=CachingMetric(), dtype=np.int64)
+        exp = [code[X[i]] * 64 + code[X[j]] for i in range(m_) for j in range(i + 1, m_)]
+        c = acc.call(pyrepseq.cdist, X, X[:1], metric=CachingMetric(), dtype=np.int64)
+        if raised(v) or v.tolist() != exp or raised(c) or c.tolist() != [[code[a] * 64 + code[X[0]]] for a in X]:
+            acc.fail("functional-pdist/metric-object-with-false-truth-value", case, exp, v)
+            return
+        acc.ok()
         # default metric with forwarded keyword arguments (python-Levenshtein's distance: score_cutoff -> cutoff+1 beyond it, weights)
         first = lambda s_: s_[:1]
         for kw, ref in (({"score_cutoff": 0}, lambda a, b: min(ref_lev(a, b), 1)), ({"weights": (1, 2, 3)}, lambda a, b: ref_wlev(a, b, 1, 2, 3)),
